@@ -147,10 +147,14 @@ def itemKey : GenItem → Nat × Toks
   | .impl im => (1, im.traitRef ++ [.punct '@'] ++ im.selfTy)
   | .raw ts => (2, ts)
 
+def distinctKeys : List (Nat × Toks) → Bool
+  | [] => true
+  | k :: ks => !ks.contains k && distinctKeys ks
+
 def permuteToward (model real : List GenItem) : List GenItem :=
   let mk := model.map itemKey
   let rk := real.map itemKey
-  if mk.length == rk.length && mk.eraseDups.length == mk.length && mk.all rk.contains then
+  if mk.length == rk.length && distinctKeys mk && mk.all rk.contains then
     model.filterMap (fun m => real.find? (fun r => itemKey r == itemKey m))
   else real
 
@@ -317,7 +321,7 @@ def evalAll (v : Variant) (attr : Toks) (item : Item) (input : Toks) (m : Outcom
 
 def inertAttr (a : Attr) : Bool :=
   match a.inner.head? with
-  | some (.ident s) => ["inline", "automatically_derived", "allow", "must_use", "cold", "doc"].contains s
+  | some (.ident s) => ["inline", "automatically_derived", "allow", "cold", "doc"].contains s
   | _ => false
 
 def userAttrs (item : Item) : List Attr :=
